@@ -138,6 +138,8 @@ type frame struct {
 	autoInvs  map[*ssa.BasicBlock][]autoInvRec
 	preLoop   map[*ssa.BasicBlock]*State
 	autoFrames map[*ssa.BasicBlock][]autoFrame
+	localTypes map[string]types.Type
+	lenient    map[string]Value
 }
 
 type namedDef struct {
@@ -900,7 +902,7 @@ func (e *Enc) alloc(fr *frame, st *State, x *ssa.Alloc) Value {
 	st.assume("(> " + ref + " 0)")
 	v := Value{term: ref, typ: x.Type()}
 	e.zeroInit(st, pt.Elem(), ref)
-	if !x.Heap {
+	if !x.Heap || capturedReadOnly(x) {
 		e.localRefs = append(e.localRefs, ref)
 	}
 	return v
@@ -1235,6 +1237,16 @@ func (e *Enc) unop(fr *frame, st *State, x *ssa.UnOp) Value {
 				st.assume(t)
 			}
 		}
+		if g, ok := x.X.(*ssa.Global); ok && e.v.globalInitNonNil(g) {
+			switch e.u.sortOf(v.typ) {
+			case sortIface:
+				st.assume("(not (= (itag " + v.term + ") 0))")
+			case sortInt:
+				if isRefLike(v.typ) {
+					st.assume("(not (= " + v.term + " 0))")
+				}
+			}
+		}
 		return v
 	case token.ARROW: // channel receive
 		return e.recv(fr, st, x, a)
@@ -1285,3 +1297,69 @@ func (e *Enc) bytesOfString(st *State, sl Value, s string) {
 }
 
 var bigOne = newBig(1)
+
+// capturedReadOnly: a heap-allocated local that escapes only into closures
+// which never write it (other goroutines can then only read it, so its
+// content as tracked by the creating function stays exact).
+func capturedReadOnly(a *ssa.Alloc) bool {
+	refs := a.Referrers()
+	if refs == nil {
+		return false
+	}
+	for _, r := range *refs {
+		switch x := r.(type) {
+		case *ssa.Store:
+			if x.Addr != ssa.Value(a) {
+				return false // the address itself is stored somewhere
+			}
+		case *ssa.UnOp:
+			if x.Op != token.MUL {
+				return false
+			}
+		case *ssa.DebugRef:
+		case *ssa.MakeClosure:
+			fn := x.Fn.(*ssa.Function)
+			for i, b := range x.Bindings {
+				if b == ssa.Value(a) {
+					if !freeVarReadOnly(fn.FreeVars[i], 0) {
+						return false
+					}
+				}
+			}
+		default:
+			return false
+		}
+	}
+	return true
+}
+
+func freeVarReadOnly(fv *ssa.FreeVar, depth int) bool {
+	if depth > 3 {
+		return false
+	}
+	refs := fv.Referrers()
+	if refs == nil {
+		return true
+	}
+	for _, r := range *refs {
+		switch x := r.(type) {
+		case *ssa.UnOp:
+			if x.Op != token.MUL {
+				return false
+			}
+		case *ssa.DebugRef:
+		case *ssa.MakeClosure:
+			fn := x.Fn.(*ssa.Function)
+			for i, b := range x.Bindings {
+				if b == ssa.Value(fv) {
+					if !freeVarReadOnly(fn.FreeVars[i], depth+1) {
+						return false
+					}
+				}
+			}
+		default:
+			return false
+		}
+	}
+	return true
+}
